@@ -61,7 +61,7 @@ def is_relevant(node):
                 return True
         elif node.get_ident() in ['declare-fun', 'define-fun', 'define-sort'
                                   ] and len(node) > 3:
-            if nodes.contains(node[3], is_fp_sort) or nodes.contains(
-                    node[3], is_rm_sort):
+            if nodes.contains(node[2:4], is_fp_sort) or nodes.contains(
+                    node[2:4], is_rm_sort):
                 return True
     return False
